@@ -399,21 +399,46 @@ def prepare_inputs(base: Path, nmax: int) -> Path:
         (ind / f"{name_of(i)}.fasta").write_text(f">id\n{payload_of(i)}\n")
         # another file whose identifier (name without format suffixes, get_unique_id) is the same
         (ind / "alt" / f"{name_of(i)}.fasta").write_text(f">id\n{payload_of(i)}\n")
+    for n in range(1, nmax + 1):  # directories holding exactly the first n records
+        (ind / f"exact-{n}").mkdir(exist_ok=True)
+        for i in range(1, n + 1):
+            (ind / f"exact-{n}" / f"{name_of(i)}.fasta").write_text(f">id\n{payload_of(i)}\n")
     return ind
 
 
+UNORDERED_REPS = ("glob", "datastore")  # the order of a directory listing is the file system's
+
+
 def make_inputs(job):
+    """the job's inputs in the REPRESENTATION the behaviour names (ComposedApp.tla, Reps)"""
     from cogent3.app.data_store import DataStoreDirectory
 
     ind = Path(job["in_dir"])
     names = [name_of(i) for i in job.get("subset") or range(1, job["n"] + 1)]
     if job.get("rev"):
         names.reverse()
-    if job["inputs"] == "path":
-        return [str(ind / f"{nm}.fasta") for nm in names]
-    ins = DataStoreDirectory(ind, suffix="fasta")
-    by = {m.unique_id: m for m in ins.completed}
-    return [by[f"{nm}.fasta"] for nm in names]
+    rep = job.get("rep") or "list"
+    if rep in UNORDERED_REPS:
+        # a directory holding exactly these records
+        exact = ind / f"exact-{job['n']}"
+        return DataStoreDirectory(exact, suffix="fasta") if rep == "datastore" else exact.glob("*.fasta")
+    if rep == "liststr" or (rep != "members" and job["inputs"] == "path"):
+        items = [str(ind / f"{nm}.fasta") for nm in names]
+    else:
+        ins = DataStoreDirectory(ind, suffix="fasta")
+        by = {m.unique_id: m for m in ins.completed}
+        items = [by[f"{nm}.fasta"] for nm in names]
+    if rep == "tuple":
+        return tuple(items)
+    if rep == "generator":
+        return (x for x in items)
+    if rep == "map":
+        return map(lambda x: x, items)
+    if rep == "iter":
+        return iter(items)
+    if rep == "reversed":
+        return reversed(items)
+    return items
 
 
 def scheduler(job, ctl: Path, tap: Tap, state: dict):
